@@ -76,7 +76,7 @@ def segment_listeners(ctx: Ctx, scale=1.0):
     from harness import drive_tclisten as dt
     c = {"EndT": "3", "WarmT": "1", "MaxEv": "4" if ctx.quick else "5", "Delays": "{0, 1, 2}", "Prios": "{1, 5}", "Bounds": "{1, 2}", "StampLag": "FALSE"}
     invs = ["NothingInThePast", "StampIsNow", "ExactlyOnce", "ExecutedInOrder", "NeverBeyondEnd", "SegmentComplete"]
-    props = ["ClockMonotone", "StampsMonotone"]
+    props = ["ClockMonotone", "StampsMonotone", "StepIsOneEvent"]
     files, mod, cfg = tlc.mc_files("MC_RunListeners", "RunListeners", c, invariants=invs, properties=props)
     r = tlc.run(mod, cfg, extra_files=files, workers=8, timeout=1800)
     ctx.add_tlc("RunListeners: bounded segments, listeners of every run-thread notification schedule and cancel", r)
@@ -90,8 +90,8 @@ def segment_listeners(ctx: Ctx, scale=1.0):
     ctx.binding["run_listeners_stamp_lag_refuted"] = rb.violated
     groups = {}
     for i in range(int(scale * ctx.pick(160, 1600))):
-        conc = ("float", "int", "dur", "mixed", "float+6", "int-3")[i % 6]
-        end_t, warm_t = ((4, 1), (6, 0), (5, 2), (6, 6))[i % 4]
+        conc = ("float", "int", "dur", "mixed", "float+6", "int-3", "durh", "int+9007199254740993")[i % 8]
+        end_t, warm_t = ((4, 1), (6, 0), (5, 2), (6, 6))[(i + i // 8) % 4]
         tr, errors = dt.run_segmented(conc, random.Random(ctx.seed * 104729 + i), end_t=end_t, warm_t=warm_t)
         ctx.evaluations += 1
         if errors:
@@ -106,7 +106,7 @@ def segment_listeners(ctx: Ctx, scale=1.0):
         tmod = "---- MODULE TraceRunListeners_gen ----\nEXTENDS TraceRunListeners\n" + "\n".join(f"c_{k} == {v}" for k, v in tc.items()) + "\n====\n"
         tcfg = ("SPECIFICATION TraceSpec\nCONSTANTS\n" + "\n".join(f"  {k} <- c_{k}" for k in tc) + "\nCONSTRAINT Progress\nPOSTCONDITION Post\n" +
                 "INVARIANT InvNothingInThePast\nINVARIANT InvStampIsNow\nINVARIANT InvExactlyOnce\nINVARIANT InvSegmentComplete\n"
-                "PROPERTY PropClockMonotone\nPROPERTY PropStampsMonotone\nCHECK_DEADLOCK FALSE\n")
+                "PROPERTY PropClockMonotone\nPROPERTY PropStampsMonotone\nPROPERTY PropStepIsOneEvent\nCHECK_DEADLOCK FALSE\n")
         rej, st = traces.validate("TraceRunListeners_gen", "TraceRunListeners_gen.cfg", trs, extra_files={"TraceRunListeners_gen.tla": tmod, "TraceRunListeners_gen.cfg": tcfg}, timeout=1800)
         ctx.states += st["distinct"]; ctx.transitions += st["generated"]
         ctx.tlc_runs.append({"model": f"TraceRunListeners (end {end_t}, warm-up {warm_t})", "traces": len(trs), **{k: (round(v, 2) if isinstance(v, float) else v) for k, v in st.items()}})
@@ -140,8 +140,9 @@ def segment_listeners(ctx: Ctx, scale=1.0):
         for t in trs:
             w = None
             for e in t:
-                if e["a"] in ("Start", "Stop", "TC"):
-                    w = {"Start": "START", "Stop": "STOP", "TC": "TC"}[e["a"]]
+                if e["a"] in ("Start", "StepStart", "Stop", "TC"):
+                    w = {"Start": "START", "StepStart": "START", "Stop": "STOP", "TC": "TC"}[e["a"]]
+                    nl["steps"] = nl.get("steps", 0) + (e["a"] == "StepStart")
                 elif e["a"] == "Exec":
                     w = "WARMUP" if e["id"] == 1 else None
                 elif e["a"] == "Sched" and e["by"] == "listener" and w:
